@@ -901,3 +901,312 @@ def rule_R1_cvec(ctx):
                    "%d output words equal the spec compression lane for lane; reads cv[0..8)+block[0..64), writes exactly the result" % len(want) if d is None and okst and okld else
                    ("output word %d is %s ; spec %s" % d if d else "stores %s / loads outside cv+block: %s" % (stored, not okld)))
     ctx.floor("C intrinsics single-block kernels evaluated lane-precisely", n, 6)
+
+
+def rule_R1_rvec(ctx, F):
+    """Rust intrinsics twins (rust_sse2.rs / rust_sse41.rs compress_in_place, compress_xof), lane-precise"""
+    import cvec
+    n = 0
+    for mod in ("sse2", "sse41"):
+        for fname, xof in (("%s::compress_in_place" % mod, False), ("%s::compress_xof" % mod, True)):
+            fn = F.fn(fname)
+            if fn is None:
+                continue
+            n += 1
+            T = Terms()
+            CV = tuple(T.sym("cv%d" % i) for i in range(8))
+            M = tuple(T.sym("m%d" % i) for i in range(16))
+            lo, hi, bl, fl, ctr = T.sym("counter_low"), T.sym("counter_high"), T.sym("block_len"), T.sym("flags"), T.sym("counter")
+            blk = Cell(tuple(M[i // 4] if i % 4 == 0 else T.sym("byte%d" % i) for i in range(64)))
+            cvc = Cell(CV)
+            ov = {"counter_low": lambda se, a: lo if a[0] == ctr else T.sym("?"), "counter_high": lambda se, a: hi if a[0] == ctr else T.sym("?")}
+            se = cvec.LaneSymExec(F, T, byte_cells=[blk], overrides=ov)
+            inst = "rust-single-block:%s" % fname
+            try:
+                ret = se.run(fn, [Ptr(cvc), Ptr(blk), bl, ctr, fl])
+            except SymFail as e:
+                ctx.ob(False, inst, fn.loc, "not evaluable lane-precisely: %s" % e)
+                continue
+            v = spec_compress_pre(T, CV, M, lo, hi, bl, fl)
+            if xof:
+                want = [T.xor(v[i], v[i + 8]) for i in range(8)] + [T.xor(v[i + 8], CV[i]) for i in range(8)]
+                got = []
+                if isinstance(ret, tuple) and len(ret) == 4 and all(isinstance(x, cvec.LV) for x in ret):
+                    for x in ret:
+                        got += x.l
+                okst = not se.cv.stores
+            else:
+                want = [T.xor(v[i], v[i + 8]) for i in range(8)]
+                got = list(cvc.v)
+                okst = sorted((s[1], s[2]) for s in se.cv.stores if s[0] == id(cvc)) == [(0, 4), (4, 4)] and not [s for s in se.cv.stores if s[0] != id(cvc)]
+            d = first_diff(T, got, want)
+            okld = all((c == id(cvc) and i + k <= 8) or (c == id(blk) and i + 4 * k <= 64) for c, i, k in se.cv.loads)
+            ctx.ob(d is None and okst and okld, inst, fn.loc,
+                   "%d output words equal the spec compression lane for lane; reads cv[0..8)+block[0..64)%s" % (len(want), "" if xof else ", writes exactly cv") if d is None and okst and okld else
+                   ("output word %d is %s ; spec %s" % d if d else "unexpected stores/loads"))
+    if F.cfg_flavour() == "pure":
+        ctx.floor("Rust intrinsics single-block kernels evaluated lane-precisely", n, 4)
+
+
+# ------------------------------------------------------------------ TP: transposition networks, lane-precise ----
+C_TRANSPOSE = [("c/blake3_sse2.c", ("-msse2",), "transpose_vecs", "transpose_msg_vecs", 4, ["transpose", "loadu"]),
+               ("c/blake3_sse41.c", ("-msse4.1",), "transpose_vecs", "transpose_msg_vecs", 4, ["transpose", "loadu"]),
+               ("c/blake3_avx2.c", ("-mavx2",), "transpose_vecs", "transpose_msg_vecs", 8, ["transpose", "loadu"]),
+               ("c/blake3_avx512.c", ("-mavx512f", "-mavx512vl"), "transpose_vecs_128", "transpose_msg_vecs4", 4, ["transpose", "loadu", "unpack_"]),
+               ("c/blake3_avx512.c", ("-mavx512f", "-mavx512vl"), "transpose_vecs_256", "transpose_msg_vecs8", 8, ["transpose", "loadu", "unpack_"]),
+               ("c/blake3_avx512.c", ("-mavx512f", "-mavx512vl"), "transpose_vecs_512", "transpose_msg_vecs16", 16, ["transpose", "loadu", "unpack_"])]
+
+
+def rule_TP_c(ctx):
+    """transpose_vecs is the N x N transposition of 32-bit lanes; transpose_msg_vecs yields out[j].lane[k] = word j of the
+    64-byte block of input k at block_offset (so that lane k of every later operation is input k's compression)"""
+    import cvec
+    for path, mflags, tv, tm, N, filters in C_TRANSPOSE:
+        tus = _tus(path, mflags, filters)
+        T = Terms()
+        cs = cvec.CVec(tus, T)
+        f = cs.funcs.get(tv)
+        if f is None:
+            raise MissingAnchor("%s in %s" % (tv, path))
+        arr = Cell(tuple(cvec.LV([T.sym("a%d_%d" % (i, j)) for j in range(N)]) for i in range(N)))
+        inst = "transpose:%s:%s" % (os.path.basename(path), tv)
+        try:
+            cs.run(f, [Ptr(arr)])
+            bad = [(i, j) for i in range(N) for j in range(N) if arr.v[i].l[j] != T.sym("a%d_%d" % (j, i))]
+            ctx.ob(not bad, inst, "%s:%s" % (path, f["line"]), "vecs[i].lane[j] = old vecs[j].lane[i] for all %d x %d: %s" % (N, N, "yes" if not bad else "fails at %s" % (bad[:3],)))
+        except SymFail as e:
+            ctx.ob(False, inst, "%s:%s" % (path, f["line"]), "not evaluable lane-precisely: %s" % e)
+        # message loading: N inputs, block offset 64 (second block) so that the offset arithmetic is exercised
+        f = cs.funcs.get(tm)
+        if f is None:
+            raise MissingAnchor("%s in %s" % (tm, path))
+        T = Terms()
+        cells = [Cell(tuple(T.sym("in%d_w%d" % (k, i // 4)) if i % 4 == 0 else T.sym("in%d_b%d" % (k, i)) for i in range(64 * 8))) for k in range(N)]
+        cs = cvec.CVec(tus, T, byte_cells=cells)
+        inputs = Cell(tuple(Ptr(c, (0,)) for c in cells))
+        out = Cell(tuple(cvec.LV([T.sym("u%d_%d" % (i, j)) for j in range(N)]) for i in range(16)))
+        inst = "transpose-msg:%s:%s" % (os.path.basename(path), tm)
+        try:
+            cs.run(f, [Ptr(inputs), T.const(64), Ptr(out)])
+            bad = [(j, k) for j in range(16) for k in range(N) if out.v[j].l[k] != T.sym("in%d_w%d" % (k, 16 + j))]
+            okl = all(0 <= 64 <= i and i + 4 * n <= 128 for c, i, n in cs.loads)
+            ctx.ob(not bad and okl, inst, "%s:%s" % (path, f["line"]),
+                   "out[j].lane[k] = word j of input k's block at block_offset, loads stay inside [offset, offset+64): %s" % ("yes" if not bad and okl else "fails at out[%d].lane[%d]" % bad[0] if bad else "load outside the block"))
+        except SymFail as e:
+            ctx.ob(False, inst, "%s:%s" % (path, f["line"]), "not evaluable lane-precisely: %s" % e)
+    ctx.floor("C transposition helpers", 2 * len(C_TRANSPOSE), 12)
+
+
+def rule_TP_rust(ctx, F):
+    """Rust twins of transpose_vecs (sse2/sse41 4x4, avx2 8x8), lane-precise"""
+    import cvec
+    n = 0
+    for mod, N in (("sse2", 4), ("sse41", 4), ("avx2", 8)):
+        fn = F.fn("%s::transpose_vecs" % mod)
+        if fn is None:
+            continue
+        n += 1
+        T = Terms()
+        arr = Cell(tuple(cvec.LV([T.sym("a%d_%d" % (i, j)) for j in range(N)]) for i in range(N)))
+        se = cvec.LaneSymExec(F, T)
+        inst = "transpose:rust_%s.rs:transpose_vecs" % mod
+        try:
+            se.run(fn, [Ptr(arr)])
+            bad = [(i, j) for i in range(N) for j in range(N) if arr.v[i].l[j] != T.sym("a%d_%d" % (j, i))]
+            ctx.ob(not bad, inst, fn.loc, "vecs[i].lane[j] = old vecs[j].lane[i] for all %d x %d: %s" % (N, N, "yes" if not bad else "fails at %s" % (bad[:3],)))
+        except SymFail as e:
+            ctx.ob(False, inst, fn.loc, "not evaluable lane-precisely: %s" % e)
+    if F.cfg_flavour() == "pure":
+        ctx.floor("Rust transposition helpers", n, 3)
+
+
+def rule_TPm_rust(ctx, F):
+    """Rust transpose_msg_vecs (sse2/sse41/avx2): vecs[j*N + k] = loadu(inputs[k] + block_offset + j*4*N), then every N-chunk is
+    transposed (transpose_vecs is decided by TPr) -- so vecs[j*N + i].lane[k] is word j*N+i of input k's block"""
+    n = 0
+    for mod, N in (("sse2", 4), ("sse41", 4), ("avx2", 8)):
+        fn = F.fn("%s::transpose_msg_vecs" % mod)
+        if fn is None:
+            continue
+        n += 1
+        inst = "transpose-msg:rust_%s.rs" % mod
+        vl = [l for l in range(len(fn.locals)) if fn.names.get(l) == "vecs"]
+        e = val(fn.init_expr(vl[0])) if vl else None
+        bad = None
+        if not (e and e[0] == "array" and len(e[1]) == 16):
+            bad = "no 16-element initialiser of vecs"
+        else:
+            for idx, x in enumerate(e[1]):
+                j, k = divmod(idx, N)
+                okx = x[0] == "call" and x[1] == "%s::loadu" % mod and x[2][0][0] == "call" and x[2][0][1].endswith("::add")
+                if okx:
+                    p, off = x[2][0][2]
+                    okx = p == ("path", ("arg", 1, "inputs"), (("idx", ("const", None, k)),)) and off[0] == "bin" and off[1] == "Add" and off[2] == ("arg", 2, "block_offset") and _const_val(off[3]) == j * 4 * N
+                if not okx:
+                    bad = "vecs[%d] is %s ; required loadu(inputs[%d].add(block_offset + %d))" % (idx, show(x)[:100], k, j * 4 * N)
+                    break
+        tcalls = [show(val(fn.expr_call(t))) for b, t in fn.calls() if callee_name(t["callee"]) == "%s::transpose_vecs" % mod]
+        if bad is None and sorted(tcalls) != sorted("transpose_vecs(as_arrays(built(_%d:vecs)).%d)" % (vl[0], c) for c in range(16 // N)):
+            bad = "transpose_vecs is applied to %s ; required once to each of the %d consecutive %d-row squares of vecs" % (tcalls, 16 // N, N)
+        ctx.ob(bad is None, inst, fn.loc, bad or "vecs[j*%d+k] = loadu(inputs[k] + block_offset + j*%d), each %d-row square transposed" % (N, 4 * N, N))
+    if F.cfg_flavour() == "pure":
+        ctx.floor("Rust message loaders", n, 3)
+
+
+# ------------------------------------------------------------------ XNc: C xofN kernels whole, hashN body + epilogue ----
+C_XOFN = [("blake3_xof4_avx512", "load_counters4", 4), ("blake3_xof8_avx512", "load_counters8", 8), ("blake3_xof16_avx512", "load_counters16", 16)]
+
+
+def _simd_overrides(T, cvec, N, state):
+    def load_counters(cs, a):
+        lo, hi = a[2], a[3]
+        lo.cell.v = set_path(lo.cell.v, lo.path, cvec.LV([T.sym("ctr_lo%d" % k) for k in range(N)])) if lo.path else cvec.LV([T.sym("ctr_lo%d" % k) for k in range(N)])
+        hi.cell.v = set_path(hi.cell.v, hi.path, cvec.LV([T.sym("ctr_hi%d" % k) for k in range(N)])) if hi.path else cvec.LV([T.sym("ctr_hi%d" % k) for k in range(N)])
+        state["lc_args"] = (a[0], a[1])
+        return T.const(0)
+
+    def load_block_words(cs, a):
+        blk, words = a
+        if not isinstance(blk, Ptr) or blk.cell is not state["blk"]:
+            raise SymFail("load_block_words of an unexpected buffer")
+        words.cell.v = tuple(state["M"])
+        return T.const(0)
+    return load_counters, load_block_words
+
+
+def rule_XN_c(ctx):
+    """blake3_xof4/8/16_avx512 (C intrinsics), whole function, lane-precise: block k of the output is the spec XOF
+    compression of (cv, block, counter lane k, block_len, flags) at out + 64k"""
+    import cvec
+    from symexec import set_path as _sp
+    path, mflags = "c/blake3_avx512.c", ("-mavx512f", "-mavx512vl")
+    tus = _tus(path, mflags, ["xof", "round_fn", "transpose", "loadu", "storeu", "add_", "xor_", "set1_", "rot", "unpack_"])
+    tp = _rc.tu("c/blake3_portable.c")
+    for fname, lcname, N in C_XOFN:
+        T = Terms()
+        CV = tuple(T.sym("cv%d" % i) for i in range(8))
+        M = tuple(T.sym("m%d" % i) for i in range(16))
+        bl, fl, ctr = T.sym("block_len"), T.sym("flags"), T.sym("counter")
+        blk = Cell(tuple(T.sym("byte%d" % i) for i in range(64)))
+        outc = Cell(tuple(T.sym("out%d" % i) for i in range(64 * N)))
+        state = {"blk": blk, "M": M}
+        lc, lbw = _simd_overrides(T, cvec, N, state)
+        hdr = CSym([tp], T).glob
+        cs = cvec.CVec(tus, T, globals_={k: v for k, v in hdr.items() if k in ("IV", "MSG_SCHEDULE")}, overrides={lcname: lc, "load_block_words": lbw}, byte_cells=[outc])
+        f = cs.funcs.get(fname)
+        if f is None:
+            raise MissingAnchor("%s in %s" % (fname, path))
+        inst = "c-xof-kernel:%s" % fname
+        try:
+            cs.run(f, [Ptr(Cell(CV)), Ptr(blk), bl, ctr, fl, Ptr(outc)])
+        except SymFail as e:
+            ctx.ob(False, inst, "%s:%s" % (path, f["line"]), "not evaluable lane-precisely: %s" % e)
+            continue
+        bad = None
+        a0, a1 = state.get("lc_args", (None, None))
+        if a0 != ctr or T.cval(a1) != 1:
+            bad = "%s is not called with (counter, true)" % lcname
+        for k in range(N):
+            if bad:
+                break
+            v = spec_compress_pre(T, CV, M, T.sym("ctr_lo%d" % k), T.sym("ctr_hi%d" % k), bl, fl)
+            want = [T.xor(v[i], v[i + 8]) for i in range(8)] + [T.xor(v[i + 8], CV[i]) for i in range(8)]
+            got = [outc.v[64 * k + 4 * i] for i in range(16)]
+            d = first_diff(T, got, want)
+            if d:
+                bad = "output block %d word %d is %s ; spec %s" % ((k,) + d)
+        stored = sorted((s[1], s[2]) for s in cs.stores)
+        if bad is None and (sum(4 * n for _, n in stored) != 64 * N or any(s[0] != id(outc) for s in cs.stores)):
+            bad = "stores cover %d bytes of out, expected %d" % (sum(4 * n for _, n in stored), 64 * N)
+        ctx.ob(bad is None, inst, "%s:%s" % (path, f["line"]), bad or "%d output blocks: block k = spec XOF compression with counter lane k, stored at out + 64k; %d bytes written" % (N, 64 * N))
+    ctx.floor("C xofN kernels", len(C_XOFN), 3)
+
+
+C_HASHN = [("c/blake3_sse2.c", ("-msse2",), "blake3_hash4_sse2", "load_counters", 4, ["hash4", "round_fn", "transpose", "loadu", "storeu", "addv", "xorv", "set1", "rot"]),
+           ("c/blake3_sse41.c", ("-msse4.1",), "blake3_hash4_sse41", "load_counters", 4, ["hash4", "round_fn", "transpose", "loadu", "storeu", "addv", "xorv", "set1", "rot"]),
+           ("c/blake3_avx2.c", ("-mavx2",), "blake3_hash8_avx2", "load_counters", 8, ["hash8", "round_fn", "transpose", "loadu", "storeu", "addv", "xorv", "set1", "rot"]),
+           ("c/blake3_avx512.c", ("-mavx512f", "-mavx512vl"), "blake3_hash4_avx512", "load_counters4", 4, ["hash4", "round_fn", "transpose", "loadu", "storeu", "add_", "xor_", "set1_", "rot", "unpack_"]),
+           ("c/blake3_avx512.c", ("-mavx512f", "-mavx512vl"), "blake3_hash8_avx512", "load_counters8", 8, ["hash8", "round_fn", "transpose", "loadu", "storeu", "add_", "xor_", "set1_", "rot", "unpack_"]),
+           ("c/blake3_avx512.c", ("-mavx512f", "-mavx512vl"), "blake3_hash16_avx512", "load_counters16", 16, ["hash16", "round_fn", "transpose", "loadu", "storeu", "add_", "xor_", "set1_", "rot", "unpack_"])]
+
+
+def rule_HN_c(ctx):
+    """C hashN kernels, lane-precise, as three straight-line regions of the function: the statements before the block loop
+    (h := key), the loop body at a representative block index (the index-dependent parts -- the flag schedule and the
+    block offset -- are F8's and TP's obligations) and the statements after the loop (output transposition and stores)"""
+    import cvec
+    tp = _rc.tu("c/blake3_portable.c")
+    n = 0
+    for path, mflags, fname, lcname, N, filters in C_HASHN:
+        tus = _tus(path, mflags, filters)
+        T = Terms()
+        KEY = tuple(T.sym("key%d" % i) for i in range(8))
+        cells = [Cell(tuple(T.sym("in%d_w%d" % (k, i // 4)) if i % 4 == 0 else T.sym("in%d_b%d" % (k, i)) for i in range(64 * 4))) for k in range(N)]
+        outc = Cell(tuple(T.sym("out%d" % i) for i in range(32 * N)))
+        state = {"blk": None, "M": None}
+        lc, _ = _simd_overrides(T, cvec, N, state)
+        hdr = CSym([tp], T).glob
+        cs = cvec.CVec(tus, T, globals_={k: v for k, v in hdr.items() if k in ("IV", "MSG_SCHEDULE")}, overrides={lcname: lc}, byte_cells=cells + [outc])
+        f = cs.funcs.get(fname)
+        if f is None:
+            raise MissingAnchor("%s in %s" % (fname, path))
+        n += 1
+        inst = "c-hash-kernel:%s" % fname
+        where = "%s:%s" % (path, f["line"])
+        body = f["body"]
+        li = [i for i, s in enumerate(body) if s[0] == "loop"]
+        if len(li) != 1:
+            ctx.ob(False, inst, where, "expected exactly one block loop, found %d" % len(li))
+            continue
+        pre, loop, post = body[:li[0]], body[li[0]], body[li[0] + 1:]
+        FL, FS, FE, CTR, INC = (T.sym(x) for x in ("flags", "flags_start", "flags_end", "counter", "increment_counter"))
+        args = {"inputs": Ptr(Cell(tuple(Ptr(c, (0,)) for c in cells))), "blocks": T.sym("blocks"), "key": Ptr(Cell(KEY)), "counter": CTR,
+                "increment_counter": INC, "flags": FL, "flags_start": FS, "flags_end": FE, "out": Ptr(outc)}
+        env = {pn: Cell(args[pn]) for pn, _ in f["params"]}
+        try:
+            # -- before the loop
+            pre2 = [s for s in pre if not (s[0] == "decl" and s[1] == "block_flags")]
+            cs.block(pre2, env, 0)
+            hv = env["h_vecs"].v
+            okpre = all(hv[i].l == [KEY[i]] * N for i in range(8)) and state.get("lc_args") == (CTR, INC)
+            bad = None if okpre else "before the loop: h_vecs[i] = set1(key[i]) and %s(counter, increment_counter): no" % lcname
+            # -- loop body at block index 1 with symbolic chaining values and flag word
+            H = [[T.sym("h%d_%d" % (i, k)) for k in range(N)] for i in range(8)]
+            env["h_vecs"] = Cell(tuple(cvec.LV(H[i]) for i in range(8)))
+            env["block_flags"] = Cell(T.sym("block_flags"))
+            lsubs = [x for x in loop if isinstance(x, list)]
+            env["block"] = Cell(T.const(1))
+            lbody = [s for s in lsubs[0] if not (s[0] == "if" and "block_flags" in str(s[2]))]
+            cs.block(lbody, env, 0)
+            hv = env["h_vecs"].v
+            for k in range(N):
+                if bad:
+                    break
+                m = [T.sym("in%d_w%d" % (k, 16 + j)) for j in range(16)]
+                v = spec_compress_pre(T, [H[i][k] for i in range(8)], m, T.sym("ctr_lo%d" % k), T.sym("ctr_hi%d" % k), T.const(64), T.sym("block_flags"))
+                d = first_diff(T, [hv[i].l[k] for i in range(8)], [T.xor(v[i], v[i + 8]) for i in range(8)])
+                if d:
+                    bad = "loop body, input %d word %d is %s ; spec %s" % ((k,) + d)
+            okl = all(64 <= i and i + 4 * nn <= 128 for c, i, nn in cs.loads if c in [id(x) for x in cells])
+            if bad is None and not okl:
+                bad = "the loop body reads outside the 64 bytes of the current block"
+            if bad is None and env["block_flags"].v != FL:
+                bad = "block_flags is not reset to flags at the end of the body"
+            # -- after the loop
+            cs.stores = []
+            env["h_vecs"] = Cell(tuple(cvec.LV(H[i]) for i in range(8)))
+            cs.block(post, env, 0)
+            if bad is None:
+                for k in range(N):
+                    for i in range(8):
+                        if outc.v[32 * k + 4 * i] != H[i][k]:
+                            bad = "after the loop, out[%d] holds %s ; required word %d of input %d" % (32 * k + 4 * i, T.show(outc.v[32 * k + 4 * i])[:40], i, k)
+                            break
+                    if bad:
+                        break
+            if bad is None and (sum(4 * s[2] for s in cs.stores) != 32 * N or any(s[0] != id(outc) for s in cs.stores)):
+                bad = "the stores after the loop cover %d bytes, expected %d" % (sum(4 * s[2] for s in cs.stores), 32 * N)
+        except SymFail as e:
+            bad = "not evaluable lane-precisely: %s" % e
+        ctx.ob(bad is None, inst, where, bad or "h := key; body = spec compression per input over the 64 bytes at the block offset with the counter lanes; output word i of input k stored at out[32k+4i], %d bytes" % (32 * N))
+    ctx.floor("C hashN kernels", n, 6)
